@@ -18,6 +18,8 @@ for d in sorted(glob.glob(os.path.join(ROOT, "seeded", "*"))):
     det = "not detected"
     if m.get("judged"):
         det = "quiet, rightly: " + " ".join(str(m["judged"]).split())[:160]
+    if m.get("thorough_only") and not m.get("detected"):
+        det = "quick: not detected; thorough: " + " ".join(str(m["thorough_only"]).split())[:200]
     if m.get("detected") and not m.get("judged"):
         det = "VIOLATION with failing input" if m.get("detected_with_failing_input") else "VIOLATION no-failing-input-found"
     rows.append("| %s | %s | %s | %s |" % (os.path.basename(d), summ.replace("|", "/"), needs.replace("|", "/"), det))
